@@ -38,7 +38,7 @@ ASSUMPTIONS = [
 ]
 
 STATE_OPS = ["set_fc", "produce_fc", "symmetrize", "symmetrize_sg", "cutoff", "set_nac", "set_masses", "gen_disp", "gen_disp_random",
-             "set_forces", "set_dataset", "copy", "switch", "invalid"]
+             "set_forces", "set_dataset", "set_displacements", "copy", "switch", "invalid"]
 QUERY_KINDS = ["qpoints", "mesh", "band", "gv_at_q", "dm_at_q", "freqs", "tp", "disp_cells", "dos"]
 GETTERS = ["force_constants", "nac_params", "dataset", "masses", "displacements", "forces", "supercell_matrix", "primitive_matrix",
            "supercell.scaled_positions", "supercell.cell", "supercell.masses", "primitive.masses", "unitcell.scaled_positions",
@@ -90,6 +90,8 @@ def _gen_ops(rng, n_ops, n_prim, world_has_nac, fault_mode, tier):
             return st["ds"] == 1 and st["forces"]
         if kind == "set_forces":
             return st["ds"] is not None
+        if kind == "set_displacements":
+            return st["ds"] == 2
         if kind == "set_nac":
             return world_has_nac
         if kind == "switch":
@@ -119,13 +121,22 @@ def _gen_ops(rng, n_ops, n_prim, world_has_nac, fault_mode, tier):
     seq = [first]
     while len(seq) < n_ops:
         seq.append(None)
+    repeat = {}
     for i in range(n_ops):
         kind = seq[i] if seq[i] else pick()
+        if kind == "set_displacements" and not legal(kind):
+            kind = "gen_disp_random"  # planted ahead of time; the dataset type changed meanwhile
         # the classic staleness pattern: setter, query (fills lazily built caches), the same setter with other values,
-        # query - planted often enough that every batch contains it for every setter kind
-        if (kind in ("set_nac", "set_masses", "set_fc", "cutoff", "symmetrize", "set_forces", "gen_disp") and legal(kind)
+        # query - planted often enough that every batch contains it for every setter kind.  Half of the time the second
+        # query repeats the first one literally (same kind, q-points, mesh numbers and options): result objects kept by the
+        # Phonopy object must not be re-used across the state change just because the request is identical
+        if (kind in ("set_nac", "set_masses", "set_fc", "cutoff", "symmetrize", "set_forces", "gen_disp", "gen_disp_random", "set_displacements") and legal(kind)
                 and i + 3 < n_ops and seq[i + 1] is None and rng.random() < 0.3):
-            seq[i + 1], seq[i + 2], seq[i + 3] = "query", kind, "query"
+            seq[i + 1], seq[i + 2], seq[i + 3] = "query", ("set_displacements" if kind == "gen_disp_random" else kind), "query"
+            if rng.random() < 0.5:
+                repeat[i + 3] = i + 1
+            if kind in ("gen_disp_random", "set_displacements"):
+                planned[i + 1] = planned[i + 3] = "disp_cells"
         _COVER[(prev, kind)] = _COVER.get((prev, kind), 0) + 1
         prev = kind
         op = {"op": kind}
@@ -153,6 +164,10 @@ def _gen_ops(rng, n_ops, n_prim, world_has_nac, fault_mode, tier):
         elif kind == "set_forces":
             op.update(fscale=rng.choice([1.0, 1.3, 0.8]), energies=rng.random() < 0.4)
             st["forces"] = True
+        elif kind == "set_displacements":
+            op.update(n=rng.choice([None, None, 1, 3]), seed=rng.randint(0, 10**6), amp=rng.choice([0.01, 0.04]))
+            if op["n"] is not None:
+                st["forces"] = False
         elif kind == "set_dataset":
             op.update(kind=rng.choice([1, 2, 2, None]), with_forces=rng.random() < 0.6, fscale=rng.choice([1.0, 1.3]), with_energies=rng.random() < 0.35)
             if planned.get(i) == "lesser":
@@ -176,6 +191,10 @@ def _gen_ops(rng, n_ops, n_prim, world_has_nac, fault_mode, tier):
             op.update(kind=rng.choice(QUERY_KINDS), seed=rng.getrandbits(32), eigvecs=rng.random() < 0.4, gv=rng.random() < 0.3,
                       mesh=[rng.randint(1, 3) for _ in range(3)], mesh_sym=rng.random() < 0.6, band_conn=rng.random() < 0.3,
                       direction=rng.choice([None, [1, 0, 0], [0.2, 0.5, -0.3]]))
+            if planned.get(i) == "disp_cells":
+                op["kind"] = "disp_cells"
+            if i in repeat and repeat[i] < len(ops) and ops[repeat[i]]["op"] == "query":
+                op = dict(ops[repeat[i]])
         elif kind == "scribble_out":
             op.update(getter=rng.choice(GETTERS))
         ops.append(op)
@@ -603,6 +622,22 @@ def execute(spec):
                         V("set-get-mismatch", "forces=.dataset", reported_keys=sorted(ph.dataset), expected_keys=sorted(expect))
                         expect = snapshot(ph.dataset)
                     t.dataset = expect if expect is not None else snapshot(ph.dataset)
+                elif kind == "set_displacements":
+                    # the `displacements` setter on a type-2 dataset: same number of supercells (forces stay) or another number
+                    cur_n = len(t.dataset["displacements"]) if t.dataset is not None and "displacements" in t.dataset else None
+                    if cur_n is None:
+                        raise RuntimeError("n/a: no type-2 dataset")
+                    n_new = cur_n if op["n"] is None else op["n"]
+                    r_ = np.random.default_rng(op["seed"])
+                    arr = (r_.random((n_new, len(ph.supercell), 3)) - 0.5) * 2 * op["amp"]
+                    expect = copy.deepcopy(t.dataset)
+                    expect["displacements"] = arr.copy()
+                    ph.displacements = arr
+                    t.handed_in.append(["displacements=", arr, arr.copy()])
+                    if not same(snapshot(ph.dataset), expect):
+                        V("set-get-mismatch", "displacements=.dataset", reported_keys=sorted(ph.dataset), expected_keys=sorted(expect))
+                        expect = snapshot(ph.dataset)
+                    t.dataset = expect
                 elif kind == "set_dataset":
                     if op["kind"] is None:
                         val = None
